@@ -28,7 +28,21 @@ Fixpoint enum_from (i : N) (l : list res) : list res :=
   end.
 Definition spec_enumerate := enum_from 0.
 
-Definition spec_skip (n : N) (l : list res) : list res := skipn (N.to_nat n) l.
+(* discarding up to k elements: the first error among them (if any) and what is left after it / after the k *)
+Fixpoint scan (k : nat) (l : list res) : option N * list res :=
+  match k, l with
+  | O, _ => (None, l)
+  | S _, [] => (None, [])
+  | S _, RErr e :: l' => (Some e, l')
+  | S k', ROk _ :: l' => scan k' l'
+  end.
+
+(* skip n: the first n elements are dropped; an error element among them is delivered (and ends the skipping) *)
+Definition spec_skip (n : N) (l : list res) : list res :=
+  match scan (N.to_nat n) l with
+  | (Some e, rest) => RErr e :: rest
+  | (None, rest) => rest
+  end.
 Definition spec_take (n : N) (l : list res) : list res := firstn (N.to_nat n) l.
 
 (* take while p *)
@@ -59,13 +73,22 @@ Fixpoint spec_zip (la lb : list res) : list res :=
     end
   end.
 
-(* step k: every k-th element, starting with the first; c = how many elements to drop first *)
-Fixpoint every_from (k c : nat) (l : list res) : list res :=
-  match l with
-  | [] => []
-  | r :: l' => match c with O => r :: every_from k (k - 1) l' | S c' => every_from k c' l' end
+(* step k: every k-th element, starting with the first; an error among the k-1 elements dropped after an
+   element is delivered INSTEAD of that element, and stepping restarts after the error (fuel >= length) *)
+Fixpoint step_spec (fuel s1 : nat) (l : list res) : list res :=
+  match fuel with
+  | O => []
+  | S f =>
+    match l with
+    | [] => []
+    | r :: l' =>
+      match scan s1 l' with
+      | (Some e, rest) => RErr e :: step_spec f s1 rest
+      | (None, rest) => r :: step_spec f s1 rest
+      end
+    end
   end.
-Definition spec_step (k : N) (l : list res) : list res := every_from (N.to_nat k) 0 l.
+Definition spec_step (k : N) (l : list res) : list res := step_spec (length l) (N.to_nat (k - 1)) l.
 
 (* the sequence of a source cursor *)
 Definition slice {A} (data : list A) (i e : N) : list A := skipn (N.to_nat i) (firstn (N.to_nat e) data).
